@@ -89,6 +89,12 @@ def configs(tier):
         for sw in ((2, 4) if tier == "quick" else (2, 3, 4, 6)):
             for ways in ((1, 2) if tier == "quick" else (1, 2, 3)):
                 out.append({"kind": "histogram", "bucket_count": bc, "sample_width": sw, "ways": ways, "width": 4})
+    # registers wide enough that nothing is hidden by the modulus, with a number of ways that is not a power of two
+    for bc, sw, ways, width in ([(3, 3, 3, 8), (2, 2, 3, 6)] if tier == "quick" else [(3, 3, 3, 8), (2, 2, 3, 6), (4, 4, 3, 10), (3, 2, 5, 8), (2, 3, 4, 8)]):
+        out.append({"kind": "histogram", "bucket_count": bc, "sample_width": sw, "ways": ways, "width": width})
+    for ways, width in ([(3, 5)] if tier == "quick" else [(3, 5), (5, 6)]):
+        out.append({"kind": "counter", "ways": ways, "width": width})
+        out.append({"kind": "tagged", "tags": "list_single", "ways": ways, "width": width})
     for kind in ("counter", "tagged", "histogram"):
         out.append({"kind": "disabled", "metric": kind})
     return out
